@@ -211,6 +211,29 @@ Definition law_arg_restored (arg nid : positive) (a : dump) : bool :=
   | None => false
   end.
 
+(* ---- second audit round ---- *)
+
+(* the dumps agree on everything that does not concern task [tid]: every other task, every
+   node-held copy keyed otherwise, the task sets / TaskToSubJob of every job, the handler shares.
+   Together with ledger_okb of law 101 (the ledgers are functions of this skeleton) a failed
+   placement outside the call sites' precondition may only have moved task [tid] itself. *)
+Definition law_same_except (tid : positive) (b a : dump) : bool :=
+  map_sameb task_sameb (delete tid (d_heap b)) (delete tid (d_heap a)) &&
+  map_sameb (fun x y => map_sameb task_sameb (delete tid (n_tasks x)) (delete tid (n_tasks y))) (d_nodes b) (d_nodes a) &&
+  map_sameb (fun x y => bool_decide (j_tasks x = j_tasks y) && bool_decide (j_task_sub x = j_task_sub y)) (d_jobs b) (d_jobs a) &&
+  share_sameb (d_share b) (d_share a).
+
+(* base case: the model's own initial session of a generated case satisfies the hypotheses of
+   the history theorem (ledger_okb, non-negative requests, idle ledgers with a scalar map, empty
+   save area): see init_okb_sess_ok in Sched/LedgerLemmasEx.v *)
+Definition res_nonnegb' (r : res) : bool :=
+  bool_decide (0 <= cpu r) && bool_decide (0 <= mem r) && gmap_allb (fun _ v => bool_decide (0 <= v)) (scm r).
+Definition init_okb (s : sess) : bool :=
+  gmap_allb (fun _ t => res_nonnegb' (t_req t)) (heap s) &&
+  ledger_okb (heap s) (jobs s) (nodes s) &&
+  gmap_allb (fun _ n => negb (n_has_node n) || negb (bool_decide (sc (n_idle n) = None))) (nodes s) &&
+  bool_decide (saved s = ∅).
+
 Definition entry (sel : Z) (toks : list Z) : list Z :=
   match sel with
   | 1 => match run_dec dCase toks with
@@ -238,6 +261,16 @@ Definition entry (sel : Z) (toks : list Z) : list Z :=
            | None => bad_input end
   | 108 => match run_dec (let* ar := dPos in let* nd := dPos in let* a := dDump in ret (ar, nd, a)) toks with
            | Some (ar, nd, a) => eBool (law_arg_restored ar nd a)
+           | None => bad_input end
+  | 109 => match run_dec (let* t := dPos in let* b := dDump in let* a := dDump in ret (t, b, a)) toks with
+           | Some (t, b, a) => eBool (law_same_except t b a)
+           | None => bad_input end
+  (* a value a failed / discarded operation must leave as it was (Pod.Spec.NodeName) *)
+  | 110 => match run_dec (dPair dZ dZ) toks with
+           | Some (x, y) => eBool (x =? y)
+           | None => bad_input end
+  | 112 => match run_dec dCase toks with
+           | Some (e, ns, js, ts, _) => eBool (init_okb (build e ns js ts))
            | None => bad_input end
   | 101 => match run_dec (let* o := dZ in let* r := dZ in let* t := dZ in let* b := dDump in let* a := dDump in
                           let* nb := dZ in let* ne := dZ in ret (o, r, t, b, a, nb, ne)) toks with
